@@ -66,6 +66,10 @@ static ALLOC: xs::alloc::Counting = xs::alloc::Counting;
 
 pub const PART: &str = "std";
 
+pub fn polling_pause_depth() -> u32 {
+    polling::PAUSE_DEPTH
+}
+
 fn main() {
     xs::silence_panics();
     let args: Vec<String> = std::env::args().collect();
@@ -86,6 +90,7 @@ fn main() {
         i += 1;
     }
     let id = args[1].as_str();
+    scan::WRAP16.store(tier == Tier::Thorough, std::sync::atomic::Ordering::Relaxed);
     if tier == Tier::Quick {
         // per-exploration wall cap of the quick tier (reported as a cap, never as a verdict)
         std::env::set_var("XS_MAX_WALL_S", "300");
